@@ -1,5 +1,1004 @@
-//! C20 — stub (being built).
+//! C20 — the response cache policy is never looser than the data it contains.
+//!
+//! Two monitors.
+//!
+//! 1. Documents over S1 (whose object types and fields carry cache hints) are
+//!    executed by the real executor. The reference executor R1 tells which
+//!    object types were entered and which (object type, field) resolvers ran,
+//!    i.e. what the response *contains*; the hint table below states what the
+//!    Rust source of S1 declares. `resp.cache_control` must be at least as
+//!    restrictive as the combination of the contained hints, and for
+//!    selections made only on object types it must equal it.
+//! 2. Combination laws through the public API (`BatchResponse::cache_control`)
+//!    over a complete policy grid, and `CacheControl::value()` against the
+//!    policy it renders.
+
+use std::collections::BTreeSet;
+use std::path::Path;
+
+use async_graphql::{BatchRequest, BatchResponse, CacheControl, Request, Response, ValidationMode, Variables};
+use serde_json::{Value as J, json};
+use vh_core::{Rng, Run, catch, rng};
+use vh_model::doc::*;
+use vh_model::exec::RefResult;
+use vh_model::gen_doc::{GenDoc, gen_doc, overlapping};
+use vh_model::world::World;
+use vh_model::{Kind, TypeSystem, Val};
+use vh_schema::compare::{json_eq, observe};
+use vh_schema::{Env, s1};
+
+use crate::common::*;
+
+// ---------------------------------------------------------------- policy model (DESIGN A.6)
+
+#[derive(Clone, Copy, PartialEq, Eq, Debug, PartialOrd, Ord)]
+pub struct Pol {
+    pub public: bool,
+    /// -1 no-cache, 0 unset, n > 0 max-age
+    pub age: i32,
+}
+
+pub const UNSET: Pol = Pol { public: true, age: 0 };
+
+impl Pol {
+    fn of(c: CacheControl) -> Pol {
+        Pol { public: c.public, age: c.max_age }
+    }
+    fn cc(self) -> CacheControl {
+        CacheControl { public: self.public, max_age: self.age }
+    }
+    fn text(self) -> String {
+        let scope = if self.public { "public" } else { "private" };
+        match self.age {
+            -1 => format!("{scope}, no-cache"),
+            0 => format!("{scope}, max-age unset"),
+            n => format!("{scope}, max-age={n}"),
+        }
+    }
+    fn json(self) -> J {
+        json!({"public": self.public, "max_age": self.age})
+    }
+    fn from_json(j: &J) -> Option<Pol> {
+        Some(Pol { public: j.get("public")?.as_bool()?, age: j.get("max_age")?.as_i64()? as i32 })
+    }
+}
+
+/// combine = (p1 ∧ p2, −1 if either is −1, else the other if one is 0, else min)
+pub fn combine(a: Pol, b: Pol) -> Pol {
+    Pol {
+        public: a.public && b.public,
+        age: if a.age == -1 || b.age == -1 {
+            -1
+        } else if a.age == 0 {
+            b.age
+        } else if b.age == 0 {
+            a.age
+        } else {
+            a.age.min(b.age)
+        },
+    }
+}
+
+/// `obs` is at least as restrictive as `bound`: private if bound is, no-cache
+/// if bound is, max-age set and not above bound's positive max-age.
+fn not_looser(obs: Pol, bound: Pol) -> bool {
+    combine(obs, bound) == obs
+}
+
+// ---------------------------------------------------------------- what the Rust source of S1 declares
+
+fn type_hint(ty: &str) -> Pol {
+    match ty {
+        "Dog" => Pol { public: false, age: 5 },
+        "Cat" => Pol { public: true, age: 50 },
+        "Person" => Pol { public: true, age: -1 },
+        // QueryA and QueryB both declare max_age = 100 and are merged into Query
+        "Query" => Pol { public: true, age: 100 },
+        _ => UNSET,
+    }
+}
+
+fn field_hint(ty: &str, field: &str) -> Pol {
+    match (ty, field) {
+        ("Query", "dogs") => Pol { public: true, age: 10 },
+        ("Dog", "owner") => Pol { public: true, age: 30 },
+        ("Cat", "id") => Pol { public: true, age: 2 },
+        _ => UNSET,
+    }
+}
+
+fn fold_hints<'a>(types: impl Iterator<Item = &'a String>, fields: impl Iterator<Item = &'a (String, String)>) -> Pol {
+    let mut p = UNSET;
+    for t in types {
+        p = combine(p, type_hint(t));
+    }
+    for (t, f) in fields {
+        p = combine(p, field_hint(t, f));
+    }
+    p
+}
+
+// ---------------------------------------------------------------- static shape of the executed operation
+
+#[derive(Default, Debug, Clone)]
+struct Shape {
+    /// object types on which a selection set is written (directives ignored)
+    types: BTreeSet<String>,
+    /// (object type, field) selected (directives ignored)
+    fields: BTreeSet<(String, String)>,
+    /// an interface or union is traversed or named anywhere
+    abstract_involved: bool,
+    /// a field / __typename is selected where the enclosing type is abstract, or a fragment has an abstract type condition
+    direct_on_abstract: bool,
+    /// a named fragment is spread where the enclosing type is abstract
+    spread_under_abstract: bool,
+    /// kinds of fields through which composite data is reached
+    via: BTreeSet<&'static str>,
+}
+
+fn is_abstract(ts: &TypeSystem, t: &str) -> bool {
+    matches!(ts.kind(t), Kind::Interface { .. } | Kind::Union(_))
+}
+
+fn shape_of(ts: &TypeSystem, doc: &Doc, op: &Op) -> Shape {
+    fn walk(ts: &TypeSystem, doc: &Doc, sels: &[Sel], enclosing: &str, sh: &mut Shape, stack: &mut Vec<String>) {
+        let abs = is_abstract(ts, enclosing);
+        if abs {
+            sh.abstract_involved = true;
+        } else {
+            sh.types.insert(enclosing.to_string());
+        }
+        for s in sels {
+            match s {
+                Sel::Field(f) => {
+                    if abs {
+                        sh.direct_on_abstract = true;
+                    }
+                    if f.name == "__typename" {
+                        continue;
+                    }
+                    if !abs {
+                        sh.fields.insert((enclosing.to_string(), f.name.clone()));
+                    }
+                    let Some(fd) = ts.field(enclosing, &f.name) else { continue };
+                    let inner = fd.ty.name().to_string();
+                    if ts.is_composite(&inner) {
+                        sh.via.insert(match ts.kind(&inner) {
+                            Kind::Interface { .. } => "interface_field",
+                            Kind::Union(_) => "union_field",
+                            _ => "object_field",
+                        });
+                        walk(ts, doc, &f.sel, &inner, sh, stack);
+                    }
+                }
+                Sel::Inline { cond, sel, .. } => {
+                    if let Some(c) = cond {
+                        if is_abstract(ts, c) {
+                            sh.abstract_involved = true;
+                            sh.direct_on_abstract = true;
+                        }
+                        sh.via.insert("inline_fragment_with_type_condition");
+                    }
+                    walk(ts, doc, sel, cond.as_deref().unwrap_or(enclosing), sh, stack);
+                }
+                Sel::Spread { name, .. } => {
+                    let Some(fr) = doc.frag(name) else { continue };
+                    if is_abstract(ts, &fr.cond) {
+                        sh.abstract_involved = true;
+                        sh.direct_on_abstract = true;
+                    }
+                    if abs {
+                        sh.spread_under_abstract = true;
+                    }
+                    sh.via.insert("named_fragment");
+                    if stack.contains(name) {
+                        continue;
+                    }
+                    stack.push(name.clone());
+                    walk(ts, doc, &fr.sel, &fr.cond, sh, stack);
+                    stack.pop();
+                }
+            }
+        }
+    }
+    let mut sh = Shape::default();
+    let root = match op.kind {
+        OpKind::Query => ts.query.clone(),
+        OpKind::Mutation => ts.mutation.clone().unwrap_or_default(),
+        OpKind::Subscription => ts.subscription.clone().unwrap_or_default(),
+    };
+    walk(ts, doc, &op.sel, &root, &mut sh, &mut vec![]);
+    sh
+}
+
+// ---------------------------------------------------------------- focused generator
+
+/// Documents that reach Dog / Cat / Person through object, interface and
+/// union fields, with and without type-conditioned fragments. Valid by
+/// construction: nested fields carry neither aliases nor arguments, so equal
+/// response keys always denote the same field of the same type; root fields
+/// that repeat a name get a fresh alias.
+struct Fg<'a> {
+    r: &'a mut Rng,
+    ts: &'a TypeSystem,
+    doc: Doc,
+    frags: Vec<Frag>,
+    direct_abstract: bool,
+    spread_abstract: bool,
+    features: BTreeSet<String>,
+}
+
+const MAX_DEPTH: u32 = 3;
+
+impl Fg<'_> {
+    fn fld(&mut self, name: &str, alias: Option<String>, args: Vec<(String, Val)>, sel: Vec<Sel>) -> Sel {
+        let id = self.doc.fresh_id();
+        let dirs = self.dirs();
+        Sel::Field(FieldSel { id, alias, name: name.into(), args, dirs, sel })
+    }
+
+    fn dirs(&mut self) -> Vec<Dir> {
+        if !self.r.chance(1, 12) {
+            return vec![];
+        }
+        self.features.insert("directive".into());
+        let name = if self.r.bool() { "skip" } else { "include" };
+        vec![Dir { name: name.into(), args: vec![("if".into(), Val::Bool(self.r.bool()))] }]
+    }
+
+    fn named_fragment(&mut self, cond: &str, sel: Vec<Sel>) -> Sel {
+        let name = format!("F{}", self.frags.len() + 1);
+        self.frags.push(Frag { name: name.clone(), cond: cond.to_string(), sel });
+        let id = self.doc.fresh_id();
+        let dirs = self.dirs();
+        self.features.insert("named_fragment".into());
+        Sel::Spread { id, name, dirs }
+    }
+
+    fn inline(&mut self, cond: Option<&str>, sel: Vec<Sel>) -> Sel {
+        let id = self.doc.fresh_id();
+        let dirs = self.dirs();
+        self.features.insert(if cond.is_some() { "inline_fragment" } else { "inline_fragment_untyped" }.into());
+        Sel::Inline { id, cond: cond.map(|c| c.to_string()), dirs, sel }
+    }
+
+    fn sel_for(&mut self, ty: &str, depth: u32) -> Vec<Sel> {
+        if is_abstract(self.ts, ty) { self.abstract_sel(ty, depth) } else { self.object_sel(ty, depth) }
+    }
+
+    fn object_sel(&mut self, ty: &str, depth: u32) -> Vec<Sel> {
+        let fields = self.ts.fields(ty).to_vec();
+        let usable = |f: &&vh_model::FieldDef| f.args.iter().all(|a| !a.ty.is_nonnull() || a.default.is_some());
+        let leafs: Vec<String> = fields.iter().filter(usable).filter(|f| self.ts.is_leaf(f.ty.name())).map(|f| f.name.clone()).collect();
+        let comps: Vec<(String, String)> = fields
+            .iter()
+            .filter(usable)
+            .filter(|f| self.ts.is_composite(f.ty.name()))
+            .map(|f| (f.name.clone(), f.ty.name().to_string()))
+            .collect();
+        let n = 1 + self.r.below(3);
+        let mut out = vec![];
+        for _ in 0..n {
+            let deep = depth < MAX_DEPTH;
+            match self.r.below(10) {
+                5 | 6 | 7 if deep && !comps.is_empty() => {
+                    let (name, inner) = self.r.pick(&comps).clone();
+                    let sel = self.sel_for(&inner, depth + 1);
+                    out.push(self.fld(&name, None, vec![], sel));
+                }
+                8 if deep => {
+                    let sel = self.object_sel(ty, depth + 1);
+                    let cond = if self.r.chance(1, 3) { None } else { Some(ty) };
+                    out.push(self.inline(cond, sel));
+                }
+                9 if deep => {
+                    let sel = self.object_sel(ty, depth + 1);
+                    out.push(self.named_fragment(ty, sel));
+                }
+                4 => out.push(self.fld("__typename", None, vec![], vec![])),
+                _ if !leafs.is_empty() => {
+                    let name = self.r.pick(&leafs).clone();
+                    out.push(self.fld(&name, None, vec![], vec![]));
+                }
+                _ => out.push(self.fld("__typename", None, vec![], vec![])),
+            }
+        }
+        out
+    }
+
+    fn abstract_sel(&mut self, ty: &str, depth: u32) -> Vec<Sel> {
+        let poss: Vec<String> = self.ts.possible_types(ty).into_iter().collect();
+        let abstracts: Vec<String> = overlapping(self.ts, ty).into_iter().filter(|t| is_abstract(self.ts, t)).collect();
+        let iface_fields: Vec<String> = self.ts.fields(ty).iter().map(|f| f.name.clone()).collect();
+        let deep = depth < MAX_DEPTH;
+        let n = 1 + self.r.below(3);
+        let mut out = vec![];
+        for _ in 0..n {
+            // 0: `... on Obj`, 1: direct field, 2: __typename, 3: `... on Abstract`, 4: untyped inline,
+            // 5: spread of a fragment on Obj, 6: spread of a fragment on Abstract
+            let mut modes = vec![0, 0];
+            if self.direct_abstract {
+                modes.extend([1, 1, 2]);
+                if deep {
+                    modes.extend([3, 4]);
+                }
+            }
+            if self.spread_abstract {
+                modes.push(5);
+                if self.direct_abstract && deep {
+                    modes.push(6);
+                }
+            }
+            match *self.r.pick(&modes) {
+                1 if !iface_fields.is_empty() => {
+                    let name = self.r.pick(&iface_fields).clone();
+                    out.push(self.fld(&name, None, vec![], vec![]));
+                    self.features.insert("field_on_interface".into());
+                }
+                1 | 2 => {
+                    out.push(self.fld("__typename", None, vec![], vec![]));
+                    self.features.insert("typename_on_abstract".into());
+                }
+                3 => {
+                    let c = self.r.pick(&abstracts).clone();
+                    let sel = self.abstract_sel(&c, depth + 1);
+                    out.push(self.inline(Some(&c), sel));
+                    self.features.insert("abstract_type_condition".into());
+                }
+                4 => {
+                    let sel = self.abstract_sel(ty, depth + 1);
+                    out.push(self.inline(None, sel));
+                }
+                5 => {
+                    let c = self.r.pick(&poss).clone();
+                    let sel = self.object_sel(&c, depth + 1);
+                    out.push(self.named_fragment(&c, sel));
+                    self.features.insert("named_fragment_under_abstract".into());
+                }
+                6 => {
+                    let c = self.r.pick(&abstracts).clone();
+                    let sel = self.abstract_sel(&c, depth + 1);
+                    out.push(self.named_fragment(&c, sel));
+                    self.features.insert("named_fragment_under_abstract".into());
+                    self.features.insert("abstract_type_condition".into());
+                }
+                _ => {
+                    let c = self.r.pick(&poss).clone();
+                    let sel = self.object_sel(&c, depth + 1);
+                    out.push(self.inline(Some(&c), sel));
+                    self.features.insert("object_type_condition_under_abstract".into());
+                }
+            }
+        }
+        out
+    }
+
+    fn root_sel(&mut self, prefix: &str) -> Vec<Sel> {
+        const ROOTS: [&str; 11] = ["dog", "dogs", "people", "page", "node", "named", "pet", "pets", "thing", "echoOpt", "named"];
+        let n = 1 + self.r.below(3);
+        let mut used: BTreeSet<String> = BTreeSet::new();
+        let mut out = vec![];
+        for k in 0..n {
+            let name = *self.r.pick(&ROOTS);
+            let mut args: Vec<(String, Val)> = vec![];
+            let small = Val::Int(self.r.below(6) as i64);
+            match name {
+                "dog" | "named" | "pet" if self.r.bool() => args.push(("i".into(), small)),
+                "dogs" if self.r.bool() => args.push(("n".into(), Val::Int(1 + self.r.below(3) as i64))),
+                "page" if self.r.bool() => args.push(("count".into(), Val::Int(self.r.below(4) as i64))),
+                "node" => args.push(("id".into(), Val::Str(format!("id-{}", self.r.below(8))))),
+                "thing" => args.push(("pick".into(), Val::Obj(vec![("byId".into(), Val::Str(format!("{}", self.r.below(8))))]))),
+                _ => {}
+            }
+            let alias = if !used.insert(name.to_string()) || self.r.chance(1, 4) {
+                self.features.insert("alias".into());
+                Some(format!("{prefix}{k}"))
+            } else {
+                None
+            };
+            let inner = self.ts.field("Query", name).map(|f| f.ty.name().to_string()).unwrap_or_default();
+            let sel = if self.ts.is_composite(&inner) { self.sel_for(&inner, 1) } else { vec![] };
+            out.push(self.fld(name, alias, args, sel));
+        }
+        out
+    }
+}
+
+fn gen_focused(ts: &TypeSystem, r: &mut Rng, direct_abstract: bool, spread_abstract: bool, other_op: bool) -> GenDoc {
+    let mut g = Fg { r, ts, doc: Doc::default(), frags: vec![], direct_abstract, spread_abstract, features: BTreeSet::new() };
+    let sel = g.root_sel("r");
+    let mut ops = vec![Op { kind: OpKind::Query, name: None, vars: vec![], dirs: vec![], sel }];
+    let mut op_name = None;
+    if other_op && g.r.chance(1, 6) {
+        // a second operation that is not executed
+        let sel = g.root_sel("o");
+        ops[0].name = Some("Main".into());
+        let other = Op { kind: OpKind::Query, name: Some("Other".into()), vars: vec![], dirs: vec![], sel };
+        if g.r.bool() {
+            ops.push(other);
+        } else {
+            ops.insert(0, other);
+        }
+        op_name = Some("Main".to_string());
+        g.features.insert("unexecuted_operation".into());
+    } else if g.r.chance(1, 4) {
+        ops[0].name = Some("Main".into());
+        if g.r.bool() {
+            op_name = Some("Main".to_string());
+        }
+    }
+    let mut doc = g.doc;
+    doc.ops = ops;
+    doc.frags = g.frags;
+    GenDoc { doc, op_name, vars: json!({}), features: g.features }
+}
+
+// ---------------------------------------------------------------- header rendering
+
+/// `CacheControl::value()` must say exactly what the policy says (token order is not judged).
+fn header_problem(p: Pol) -> Option<String> {
+    let rendered = p.cc().value();
+    let mut expect: BTreeSet<String> = BTreeSet::new();
+    if p.age > 0 {
+        expect.insert(format!("max-age={}", p.age));
+    }
+    if p.age == -1 {
+        expect.insert("no-cache".into());
+    }
+    if !p.public {
+        expect.insert("private".into());
+    }
+    match (&rendered, expect.is_empty()) {
+        (None, true) => None,
+        (None, false) => Some(format!("policy ({}) renders no header, expected tokens {expect:?}", p.text())),
+        (Some(s), _) => {
+            let got: BTreeSet<String> = s.split(',').map(|t| t.trim().to_string()).collect();
+            if got == expect && !expect.is_empty() {
+                None
+            } else {
+                Some(format!("policy ({}) renders {s:?}, expected tokens {expect:?}", p.text()))
+            }
+        }
+    }
+}
+
+// ---------------------------------------------------------------- combination laws (complete grid)
+
+const GRID_AGES: [i32; 6] = [-1, 0, 1, 5, 60, i32::MAX];
+
+fn batch_of(ps: &[Pol]) -> Pol {
+    let b = BatchResponse::Batch(ps.iter().map(|p| Response::new(async_graphql::Value::Null).cache_control(p.cc())).collect());
+    Pol::of(b.cache_control())
+}
+
+fn laws(run: &Run) {
+    let mut grid = vec![];
+    for public in [true, false] {
+        for age in GRID_AGES {
+            grid.push(Pol { public, age });
+        }
+    }
+    let law = |name: &str, operands: &[Pol], got: Pol, want: Pol| {
+        run.count("law_checks", 1);
+        if got != want {
+            let ops: Vec<String> = operands.iter().map(|p| p.text()).collect();
+            run.violation(
+                &format!("C20-law-{name}:{}", ops.join("|")),
+                &format!("combination law '{name}' fails for [{}]: got ({}), expected ({})", ops.join("] ["), got.text(), want.text()),
+                json!({"part": "law", "law": name, "operands": operands.iter().map(|p| p.json()).collect::<Vec<_>>(), "observed": got.json(), "expected": want.json()}),
+            );
+        }
+    };
+    let r = catch(|| {
+        law("empty-batch-is-default", &[], batch_of(&[]), UNSET);
+        for &a in &grid {
+            let single = BatchResponse::Single(Response::new(async_graphql::Value::Null).cache_control(a.cc()));
+            law("single-is-itself", &[a], Pol::of(single.cache_control()), a);
+            law("batch-of-one-is-itself", &[a], batch_of(&[a]), a);
+            law("idempotent", &[a, a], batch_of(&[a, a]), a);
+            run.count("header_checks", 1);
+            if let Some(p) = header_problem(a) {
+                run.violation(&format!("C20-header:{}", a.text()), &p, json!({"part": "header", "policy": a.json(), "rendered": a.cc().value()}));
+            }
+        }
+        for &a in &grid {
+            for &b in &grid {
+                let ab = batch_of(&[a, b]);
+                law("equals-reference-combine", &[a, b], ab, combine(a, b));
+                law("commutative", &[a, b], batch_of(&[b, a]), ab);
+                run.count("law_pairs", 1);
+            }
+        }
+        for &a in &grid {
+            for &b in &grid {
+                for &c in &grid {
+                    let t = batch_of(&[a, b, c]);
+                    law("triple-equals-reference", &[a, b, c], t, combine(combine(a, b), c));
+                    for perm in [[a, c, b], [b, a, c], [b, c, a], [c, a, b], [c, b, a]] {
+                        law("order-independent", &perm, batch_of(&perm), t);
+                    }
+                    // grouping: (a·b)·c = a·(b·c), each group formed by the library itself
+                    let left = batch_of(&[batch_of(&[a, b]), c]);
+                    let right = batch_of(&[a, batch_of(&[b, c])]);
+                    law("associative-left", &[a, b, c], left, t);
+                    law("associative-right", &[a, b, c], right, t);
+                    run.count("law_triples", 1);
+                }
+            }
+        }
+    });
+    if let Err(p) = r {
+        run.violation("C20-law-panic", &format!("combining cache policies panicked: {p}"), json!({"part": "law", "panic": p}));
+    }
+    // header rendering beyond the grid
+    let mut rr = Rng::new(rng::mix(&[run.seed, 20, 0xcc]));
+    for _ in 0..2000 {
+        let p = Pol { public: rr.bool(), age: rr.range(1, i32::MAX as i64) as i32 };
+        run.count("header_checks", 1);
+        if let Some(m) = header_problem(p) {
+            run.violation(&format!("C20-header:{}", p.text()), &m, json!({"part": "header", "policy": p.json(), "rendered": p.cc().value()}));
+        }
+    }
+    run.extra(
+        "combination_laws",
+        json!({
+            "exhaustive": true,
+            "grid": {"public": [true, false], "max_age": GRID_AGES},
+            "policies": grid.len(),
+            "pairs": grid.len() * grid.len(),
+            "triples": grid.len() * grid.len() * grid.len(),
+            "laws": ["empty batch = default", "single = itself", "batch of one = itself", "idempotent", "pair = reference combine",
+                     "commutative", "triple = reference combine", "all 6 orders equal", "(a·b)·c = a·(b·c) = fold"],
+            "through": "BatchResponse::cache_control (CacheControl::merge is crate-private)",
+        }),
+    );
+}
+
+// ---------------------------------------------------------------- document part
+
+#[derive(Clone)]
+struct Schemas {
+    strict: s1::S1Schema,
+    fast: s1::S1Schema,
+}
+
+impl Schemas {
+    fn new() -> Schemas {
+        Schemas { strict: s1::schema(), fast: s1::builder().validation_mode(ValidationMode::Fast).finish() }
+    }
+    fn get(&self, fast: bool) -> &s1::S1Schema {
+        if fast { &self.fast } else { &self.strict }
+    }
+}
+
+struct Judged {
+    obs: Pol,
+}
+
+fn contained_of(reference: &RefResult) -> Pol {
+    fold_hints(reference.entered_nonempty.iter(), reference.touched.iter())
+}
+
+fn replay_of(case: &Case, fast: bool, reference: &RefResult, shape: &Shape, obs: Pol, contained: Pol, statics: Pol) -> J {
+    let mut rj = case.replay_json("static");
+    rj["part"] = json!("document");
+    rj["null_pct"] = json!(case.world.null_pct);
+    rj["validation_mode"] = json!(if fast { "Fast" } else { "Strict" });
+    rj["contained_object_types"] = json!(reference.entered_nonempty);
+    rj["contained_fields"] = json!(reference.touched.iter().map(|(t, f)| format!("{t}.{f}")).collect::<Vec<_>>());
+    rj["contained_policy"] = contained.json();
+    rj["static_selection_policy"] = statics.json();
+    rj["object_types_only"] = json!(!shape.abstract_involved);
+    rj["observed_policy"] = obs.json();
+    rj["expected_data"] = reference.data.clone();
+    rj
+}
+
+/// Execute one case and judge it. Returns the observed policy when the case was judged.
+fn one(run: &Run, schemas: &Schemas, case: &Case, fast: bool) -> Option<Judged> {
+    let Some(op) = case.gd.doc.op(case.gd.op_name.as_deref()) else { return None };
+    let shape = shape_of(&case.ts, &case.gd.doc, op);
+    let reference = case.reference();
+    let env = Env::new(case.ts.clone(), case.world.clone());
+    let schema = schemas.get(fast);
+    let resp = match catch(|| vh_core::vsched::block_on(schema.execute(case.request(&env)))) {
+        Ok(r) => r,
+        Err(p) => {
+            run.violation(&format!("C20-panic:{:x}", case.hash()), &format!("executor panicked: {p}"), case.replay_json("static"));
+            return None;
+        }
+    };
+    run.eval();
+    run.count("resolver_events", env.log.len() as u64);
+    if reference.request_error.is_some() || !reference.errors.is_empty() || !resp.errors.is_empty() {
+        run.count("skipped_response_or_reference_has_errors", 1);
+        return None;
+    }
+    let o = observe(&resp);
+    if !json_eq(&o.data, &reference.data) {
+        // what the response contains is then not what R1 says; data equality is C01's business
+        run.count("skipped_data_differs_from_reference", 1);
+        return None;
+    }
+    run.count("responses_judged", 1);
+    run.seen("validation_mode", if fast { "Fast" } else { "Strict" });
+    for v in &shape.via {
+        run.seen("reached_through", v);
+    }
+    for f in &case.gd.features {
+        run.seen("features", f);
+    }
+    let contained = contained_of(&reference);
+    let statics = fold_hints(shape.types.iter(), shape.fields.iter());
+    let obs = Pol::of(resp.cache_control);
+    run.seen("observed_policies", &obs.text());
+    run.seen("contained_object_types", &reference.entered_nonempty.iter().cloned().collect::<Vec<_>>().join("+"));
+    let hinted: BTreeSet<Pol> = reference
+        .entered_nonempty
+        .iter()
+        .map(|t| type_hint(t))
+        .chain(reference.touched.iter().map(|(t, f)| field_hint(t, f)))
+        .filter(|p| *p != UNSET)
+        .collect();
+    if hinted.len() >= 2 {
+        run.nontrivial(case.hash());
+    }
+    run.sample(json!({
+        "document": case.printed.text, "operation_name": case.gd.op_name, "world_seed": case.world.seed,
+        "contained_object_types": reference.entered_nonempty, "contained_policy": contained.text(),
+        "observed_policy": obs.text(), "header": resp.cache_control.value(), "object_types_only": !shape.abstract_involved,
+    }));
+    run.count("header_checks", 1);
+    if let Some(m) = header_problem(obs) {
+        run.violation(&format!("C20-header:{}", obs.text()), &m, json!({"part": "header", "policy": obs.json(), "rendered": obs.cc().value()}));
+    }
+    // 1. never looser than what the response contains
+    run.count("soundness_checks", 1);
+    if shape.abstract_involved {
+        run.count("soundness_checks_through_abstract_types", 1);
+    }
+    if obs.age < -1 || !not_looser(obs, contained) {
+        run.violation(
+            &format!("C20-looser:{:x}", case.hash()),
+            &format!(
+                "response policy ({}) is looser than the data it contains ({}; object types {:?}) | doc: {}",
+                obs.text(),
+                contained.text(),
+                reference.entered_nonempty,
+                case.printed.text
+            ),
+            replay_of(case, fast, &reference, &shape, obs, contained, statics),
+        );
+    } else if !shape.abstract_involved {
+        // 2. exact for selections made only on object types. Demanded when the policy of everything
+        // selected (directives ignored) equals the policy of everything contained, i.e. whenever
+        // the static and the run-time reading of "contains" agree.
+        run.count("object_only_documents", 1);
+        if statics == contained {
+            run.count("exact_checks", 1);
+            if obs != contained {
+                run.violation(
+                    &format!("C20-not-exact:{:x}", case.hash()),
+                    &format!(
+                        "selection on object types only: response policy ({}) differs from the combination of the contained hints ({}) | doc: {}",
+                        obs.text(),
+                        contained.text(),
+                        case.printed.text
+                    ),
+                    replay_of(case, fast, &reference, &shape, obs, contained, statics),
+                );
+            }
+        } else {
+            run.count("object_only_static_selection_wider_than_contained", 1);
+        }
+    }
+    Some(Judged { obs })
+}
+
+fn documents(run: &Run) {
+    let cases = run.scale(60_000, 2_500_000);
+    let shards = n_shards(run);
+    let ts = s1::model();
+    let schemas = Schemas::new();
+    let direct_abstract = run.feature("selection_on_abstract_type");
+    let spread_abstract = run.feature("named_fragment_under_abstract_type");
+    let other_op = run.feature("unexecuted_operation_with_hints");
+    std::thread::scope(|sc| {
+        for shard in 0..shards {
+            let ts = ts.clone();
+            let schemas = schemas.clone();
+            sc.spawn(move || {
+                let mut r = shard_rng(run, 20, shard);
+                let mut prev: Option<(Case, bool, Pol)> = None;
+                let mut i = shard;
+                while i < cases {
+                    i += shards;
+                    let focused = r.chance(3, 5);
+                    let mut gd = None;
+                    if !focused {
+                        for _ in 0..30 {
+                            let mut o = doc_opts(run);
+                            o.kind = OpKind::Query;
+                            let g = gen_doc(&ts, &mut r, &o);
+                            let Some(op) = g.doc.op(g.op_name.as_deref()) else { continue };
+                            let sh = shape_of(&ts, &g.doc, op);
+                            if (sh.direct_on_abstract && !direct_abstract) || (sh.spread_under_abstract && !spread_abstract) {
+                                run.count("generated_documents_discarded_for_excluded_features", 1);
+                                continue;
+                            }
+                            gd = Some(g);
+                            break;
+                        }
+                    }
+                    let from = if gd.is_some() { "gen_doc" } else { "focused" };
+                    let gd = gd.unwrap_or_else(|| gen_focused(&ts, &mut r, direct_abstract, spread_abstract, other_op));
+                    run.count(&format!("documents_{from}"), 1);
+                    let mut world = World::new(r.next_u64());
+                    world.null_pct = *r.pick(&[0, 15, 15, 40]);
+                    let case = Case::new(ts.clone(), gd, world, r.bool());
+                    let fast = r.chance(1, 3);
+                    let Some(j) = one(run, &schemas, &case, fast) else {
+                        prev = None;
+                        continue;
+                    };
+                    // the policy of a batch is the combination of its members' policies
+                    if let Some((pc, pfast, pobs)) = prev.take() {
+                        if pfast == fast && r.chance(1, 4) {
+                            let e1 = Env::new(pc.ts.clone(), pc.world.clone());
+                            let e2 = Env::new(case.ts.clone(), case.world.clone());
+                            let batch = BatchRequest::Batch(vec![pc.request(&e1), case.request(&e2)]);
+                            if let Ok(br) = catch(|| vh_core::vsched::block_on(schemas.get(fast).execute_batch(batch))) {
+                                run.count("batches_executed", 1);
+                                let got = Pol::of(br.cache_control());
+                                let want = combine(pobs, j.obs);
+                                if br.is_ok() && got != want {
+                                    run.violation(
+                                        &format!("C20-batch:{:x}", rng::mix(&[pc.hash(), case.hash()])),
+                                        &format!(
+                                            "batch policy ({}) is not the combination ({}) of its members' policies ({}) and ({})",
+                                            got.text(),
+                                            want.text(),
+                                            pobs.text(),
+                                            j.obs.text()
+                                        ),
+                                        json!({"part": "batch", "members": [pc.replay_json("static"), case.replay_json("static")],
+                                               "member_policies": [pobs.json(), j.obs.json()], "observed": got.json(), "expected": want.json()}),
+                                    );
+                                }
+                            }
+                        }
+                    }
+                    prev = Some((case, fast, j.obs));
+                }
+            });
+        }
+    });
+}
+
+// ---------------------------------------------------------------- pinned witnesses
+
+fn wfield(doc: &mut Doc, name: &str, args: Vec<(&str, Val)>, sel: Vec<Sel>) -> Sel {
+    let id = doc.fresh_id();
+    Sel::Field(FieldSel { id, alias: None, name: name.into(), args: args.into_iter().map(|(k, v)| (k.to_string(), v)).collect(), dirs: vec![], sel })
+}
+
+fn wcase(doc: Doc, op_name: Option<&str>, seed: u64) -> Case {
+    let gd = GenDoc { doc, op_name: op_name.map(|s| s.to_string()), vars: json!({}), features: Default::default() };
+    let mut w = World::new(seed);
+    w.null_pct = 0;
+    Case::new(s1::model(), gd, w, false)
+}
+
+/// First world (seed 1, 2, …) in which the reference run has no errors and satisfies `want`.
+fn find_world(doc: &Doc, op_name: Option<&str>, want: impl Fn(&RefResult) -> bool) -> Option<(Case, RefResult)> {
+    for seed in 1..2000u64 {
+        let c = wcase(doc.clone(), op_name, seed);
+        let r = c.reference();
+        if r.request_error.is_none() && r.errors.is_empty() && want(&r) {
+            return Some((c, r));
+        }
+    }
+    None
+}
+
+struct Wit {
+    finding: &'static str,
+    doc: Doc,
+    op_name: Option<&'static str>,
+    want: fn(&RefResult) -> bool,
+    /// object-only witness: the policy must equal the contained combination
+    exact: bool,
+}
+
+fn witness_docs() -> Vec<Wit> {
+    let mut out = vec![];
+    // { named { name } } yielding a Dog
+    let mut d = Doc::default();
+    let n = wfield(&mut d, "name", vec![], vec![]);
+    let f = wfield(&mut d, "named", vec![], vec![n]);
+    d.ops = vec![Op { kind: OpKind::Query, name: None, vars: vec![], dirs: vec![], sel: vec![f] }];
+    out.push(Wit { finding: "C20-selection-on-abstract-type-ignores-object-policy", doc: d, op_name: None, want: |r| r.entered_nonempty.contains("Dog"), exact: false });
+    // { pet { ... on Named { name } } } yielding a Dog
+    let mut d = Doc::default();
+    let n = wfield(&mut d, "name", vec![], vec![]);
+    let id = d.fresh_id();
+    let inl = Sel::Inline { id, cond: Some("Named".into()), dirs: vec![], sel: vec![n] };
+    let f = wfield(&mut d, "pet", vec![], vec![inl]);
+    d.ops = vec![Op { kind: OpKind::Query, name: None, vars: vec![], dirs: vec![], sel: vec![f] }];
+    out.push(Wit { finding: "C20-selection-on-abstract-type-ignores-object-policy", doc: d, op_name: None, want: |r| r.entered_nonempty.contains("Dog"), exact: false });
+    // { node(id: "a") { id } } yielding a Cat: Cat.id carries max-age 2
+    let mut d = Doc::default();
+    let n = wfield(&mut d, "id", vec![], vec![]);
+    let f = wfield(&mut d, "node", vec![("id", Val::Str("a".into()))], vec![n]);
+    d.ops = vec![Op { kind: OpKind::Query, name: None, vars: vec![], dirs: vec![], sel: vec![f] }];
+    out.push(Wit { finding: "C20-interface-field-ignores-object-field-policy", doc: d, op_name: None, want: |r| r.entered_nonempty.contains("Cat"), exact: false });
+    // { pet { ...F } } fragment F on Dog { owner { name } } yielding a Dog with an owner
+    let mut d = Doc::default();
+    let n = wfield(&mut d, "name", vec![], vec![]);
+    let o = wfield(&mut d, "owner", vec![], vec![n]);
+    let id = d.fresh_id();
+    let sp = Sel::Spread { id, name: "F".into(), dirs: vec![] };
+    let f = wfield(&mut d, "pet", vec![], vec![sp]);
+    d.frags = vec![Frag { name: "F".into(), cond: "Dog".into(), sel: vec![o] }];
+    d.ops = vec![Op { kind: OpKind::Query, name: None, vars: vec![], dirs: vec![], sel: vec![f] }];
+    out.push(Wit {
+        finding: "C20-named-fragment-under-abstract-type-loses-types",
+        doc: d,
+        op_name: None,
+        want: |r| r.entered_nonempty.contains("Dog") && r.entered_nonempty.contains("Person"),
+        exact: false,
+    });
+    // query Main { echoOpt } query Other { people { name } }, executing Main
+    let mut d = Doc::default();
+    let e = wfield(&mut d, "echoOpt", vec![], vec![]);
+    let n = wfield(&mut d, "name", vec![], vec![]);
+    let p = wfield(&mut d, "people", vec![], vec![n]);
+    d.ops = vec![
+        Op { kind: OpKind::Query, name: Some("Main".into()), vars: vec![], dirs: vec![], sel: vec![e] },
+        Op { kind: OpKind::Query, name: Some("Other".into()), vars: vec![], dirs: vec![], sel: vec![p] },
+    ];
+    out.push(Wit { finding: "C20-unexecuted-operation-counts", doc: d, op_name: Some("Main"), want: |_| true, exact: true });
+    out
+}
+
+fn witnesses(run: &Run) {
+    let schemas = Schemas::new();
+    let mut by_finding: Vec<(&'static str, Vec<String>, bool)> = vec![];
+    for w in witness_docs() {
+        let Some((case, reference)) = find_world(&w.doc, w.op_name, w.want) else {
+            run.inconclusive(&format!("witness {}: no world yields the wanted data", w.finding));
+            continue;
+        };
+        let env = Env::new(case.ts.clone(), case.world.clone());
+        let resp = match catch(|| vh_core::vsched::block_on(schemas.strict.execute(case.request(&env)))) {
+            Ok(r) => r,
+            Err(p) => {
+                run.violation(&format!("{}|panic", w.finding), &format!("pinned witness panicked: {p}"), case.replay_json("static"));
+                continue;
+            }
+        };
+        run.eval();
+        run.count("witness_executions", 1);
+        let o = observe(&resp);
+        if !resp.errors.is_empty() || !json_eq(&o.data, &reference.data) {
+            run.inconclusive(&format!("witness {}: response differs from the reference data", w.finding));
+            continue;
+        }
+        let contained = contained_of(&reference);
+        let obs = Pol::of(resp.cache_control);
+        let types: Vec<String> = reference.entered_nonempty.iter().filter(|t| *t != "Query").cloned().collect();
+        let good = not_looser(obs, contained) && (!w.exact || obs == contained);
+        let text = format!(
+            "[{}{} -> {}] {}",
+            case.printed.text,
+            w.op_name.map(|n| format!(" (operation {n})")).unwrap_or_default(),
+            if types.is_empty() { "no object below Query".to_string() } else { types.join("+") },
+            obs.text()
+        );
+        match by_finding.iter_mut().find(|(f, _, _)| *f == w.finding) {
+            Some(e) => {
+                e.1.push(text);
+                e.2 &= good;
+            }
+            None => by_finding.push((w.finding, vec![text], good)),
+        }
+    }
+    for (finding, obs, good) in by_finding {
+        if good {
+            run.count("witnesses_now_correct", 1);
+            run.note(&format!("pinned witness {finding} now yields a sound policy: {}", obs.join(" | ")));
+        } else {
+            run.violation(
+                &format!("{finding}|{}", obs.join(" | ")),
+                &format!("pinned witness: {}", obs.join(" | ")),
+                json!({"part": "witness", "witness": finding, "observed": obs}),
+            );
+        }
+    }
+}
+
+// ---------------------------------------------------------------- replay
+
+fn replay(run: &Run, path: &Path) {
+    let Ok(text) = std::fs::read_to_string(path) else {
+        run.inconclusive(&format!("cannot read replay file {}", path.display()));
+        return;
+    };
+    let Ok(v) = serde_json::from_str::<J>(&text) else {
+        run.inconclusive("replay file is not JSON");
+        return;
+    };
+    let case = &v["case"];
+    match case["part"].as_str() {
+        Some("law") | Some("header") | Some("witness") | Some("batch") => {
+            // deterministic, input-free parts: run them again
+            laws(run);
+            witnesses(run);
+        }
+        _ => {
+            let doc = case["document"].as_str().unwrap_or_default().to_string();
+            let fast = case["validation_mode"].as_str() == Some("Fast");
+            let mut world = World::new(case["world_seed"].as_u64().unwrap_or(0));
+            world.null_pct = case["null_pct"].as_u64().unwrap_or(15) as u32;
+            let (Some(contained), Some(statics)) = (Pol::from_json(&case["contained_policy"]), Pol::from_json(&case["static_selection_policy"])) else {
+                run.inconclusive("replay file lacks the contained / static policies");
+                return;
+            };
+            let env = Env::new(s1::model(), world);
+            let mut req = Request::new(doc.clone()).variables(Variables::from_json(case["variables"].clone())).data(env.clone());
+            if let Some(n) = case["operation_name"].as_str() {
+                req = req.operation_name(n);
+            }
+            let schemas = Schemas::new();
+            let resp = vh_core::vsched::block_on(schemas.get(fast).execute(req));
+            run.eval();
+            let o = observe(&resp);
+            if !resp.errors.is_empty() || !json_eq(&o.data, &case["expected_data"]) {
+                run.inconclusive("replayed response differs from the recorded reference data");
+                return;
+            }
+            let obs = Pol::of(resp.cache_control);
+            println!("REPLAY observed ({}) contained ({}) document {doc}", obs.text(), contained.text());
+            let object_only = case["object_types_only"].as_bool().unwrap_or(false);
+            if obs.age < -1 || !not_looser(obs, contained) {
+                run.violation(&format!("C20-looser:replay:{:x}", rng::hash_str(&doc)), &format!("response policy ({}) is looser than the data it contains ({})", obs.text(), contained.text()), case.clone());
+            } else if object_only && statics == contained && obs != contained {
+                run.violation(&format!("C20-not-exact:replay:{:x}", rng::hash_str(&doc)), &format!("response policy ({}) differs from the combination of the contained hints ({})", obs.text(), contained.text()), case.clone());
+            }
+        }
+    }
+}
+
+// ---------------------------------------------------------------- entry
+
 pub fn main() {
-    println!("INCONCLUSIVE property=C20 reason=check not built yet");
-    std::process::exit(2);
+    let mut run = Run::from_args(
+        "exploration",
+        "S1 (Dog private max-age 5, Cat max-age 50, Person no-cache, Query max-age 100; field hints Query.dogs 10, Dog.owner 30, \
+         Cat.id 2) queried by generated valid documents that reach Dog/Cat/Person through object fields, interface fields and \
+         union fields, with and without type-conditioned inline/named fragments, directives, aliases, unexecuted extra \
+         operations; data worlds with 0/15/40 % nulls; Strict and Fast validation. The reference executor R1 gives the object \
+         types entered and the (object, field) resolvers run = what the response contains. Non-trivial = the response contains at \
+         least two different non-default hints; distinct by hash of (document, variables, world). Plus every pair / triple / \
+         permutation over the grid public∈{true,false} × max_age∈{-1,0,1,5,60,i32::MAX} through BatchResponse::cache_control",
+    );
+    run.assume("reference executor R1 (harness/model) implements GraphQL spec Oct-2021 §6; a case is judged only when the real response has no errors and its data equals R1's");
+    run.assume("the hint table in c20.rs states what the Rust source of S1 (harness/schema/src/s1.rs) declares");
+    run.assume("'never less restrictive' is read through the combination order: policy ⊑ hint iff combine(policy, hint) = policy (so an unset max-age is looser than any set one)");
+    run.assume("an object counts as contained when at least one response key (a field or __typename) is produced for it; an object completed as {} because no fragment applied is not counted");
+    run.assume("exactness for object-only selections is demanded when the hints of everything selected (directives ignored) combine to the same policy as the hints of what R1 says was resolved; when a selected object turns out null/empty or is pruned by @skip/@include the two readings of 'contains' differ and only 'never looser' is judged");
+    if let Some(p) = run.replay.clone() {
+        replay(&run, &p);
+        run.finish_code_exit();
+    }
+    run.set_floors(run.scale(2_000, 100_000), run.scale(500, 20_000));
+    for c in ["responses_judged", "soundness_checks", "soundness_checks_through_abstract_types", "exact_checks", "law_checks", "header_checks", "resolver_events", "witness_executions"] {
+        run.require_counter(c);
+    }
+    laws(&run);
+    witnesses(&run);
+    documents(&run);
+    run.extra("schema", json!("S1 (harness/schema/src/s1.rs), Strict and Fast validation modes"));
+    run.extra("document_part", json!({"exhaustive": false, "sampled": true}));
+    run.finish_code_exit();
 }
